@@ -967,20 +967,12 @@ Proof.
 Qed.
 
 (* ------------------------------------------------------------------ decidable order conditions *)
-Definition indepb (g f : mfunc) : bool := forallb (fun o => negb (mem_str o (fparams f))) (fouts g).
 Lemma indepb_ok g f : indepb g f = true -> indep_fn g f.
 Proof.
   unfold indepb, indep_fn. rewrite forallb_forall. intros H o Ho X. specialize (H o Ho).
   apply Bool.negb_true_iff, mem_str_false in H. contradiction.
 Qed.
 
-Fixpoint topo_listb (p : list mfunc) : bool :=
-  match p with
-  | [] => true
-  | f :: rest => indepb f f
-                 && forallb (fun g => indepb g f && forallb (fun o => negb (mem_str o (fouts f))) (fouts g)) rest
-                 && topo_listb rest
-  end.
 Lemma topo_listb_ok p : topo_listb p = true -> topo_list p.
 Proof.
   induction p as [|f rest IH]; cbn; [auto|]. intros H. apply andb_true_iff in H as [H H3]. apply andb_true_iff in H as [H1 H2].
@@ -991,13 +983,6 @@ Proof.
 Qed.
 
 (* every parameter that some function produces is produced in an earlier generation (by names) *)
-Fixpoint producers_beforeb (p : list mfunc) (names : list str) (gens : list (list mfunc)) : bool :=
-  match gens with
-  | [] => true
-  | gen :: rest =>
-      forallb (fun f => forallb (fun q => match producer p q with Some _ => mem_str q names | None => true end) (fparams f)) gen
-      && producers_beforeb p (names ++ flat_map fouts gen) rest
-  end.
 Lemma producers_beforeb_ok p gens : forall before,
   (forall g f o, In g p -> In f p -> In o (fouts g) -> In o (fouts f) -> g = f) ->
   (forall g, In g before -> In g p) -> (forall gen f, In gen gens -> In f gen -> In f p) ->
@@ -1015,10 +1000,6 @@ Proof.
 Qed.
 
 (* every function is in some generation when its level is in range *)
-Definition levels_okb (p : list mfunc) : bool :=
-  let lv := levels p in
-  let top := fold_right Nat.max 0 (map snd lv) in
-  forallb (fun f => (1 <=? level_of lv f) && (level_of lv f <=? top)) p.
 Lemma levels_okb_ok p : levels_okb p = true -> forall f, In f p -> In f (concat (generations p)).
 Proof.
   unfold levels_okb, generations. cbv zeta. rewrite forallb_forall. intros H f Hf. specialize (H f Hf).
@@ -1034,8 +1015,6 @@ Proof.
 Qed.
 
 (* the order conditions in one decidable predicate; pipefunc's topological generations satisfy it *)
-Definition pipeline_order_ok (p : list mfunc) : bool :=
-  topo_listb p && producers_beforeb p [] (generations p) && levels_okb p.
 
 
 (* the main theorems with the decidable order conditions *)
